@@ -163,6 +163,63 @@ func (r *Reader) Read(p []byte) (int, error) {
 	return r.record(len(p), n, nil)
 }
 
+// ByteReader is the same simulated reader also offering io.ByteReader, as
+// bufio.Reader, bytes.Reader and many application readers do; code that
+// type-switches on the capabilities of its reader then takes its other path.
+// Every ReadByte is one or more planned Read calls of one byte.
+type ByteReader struct{ *Reader }
+
+// ReadByte implements io.ByteReader on top of the plan.
+func (b ByteReader) ReadByte() (byte, error) {
+	var p [1]byte
+	for {
+		n, err := b.Reader.Read(p[:])
+		if n == 1 {
+			// an error delivered with the byte is reported by the next call
+			// (the reader's failure and its end are both sticky)
+			return p[0], nil
+		}
+		if err != nil {
+			return 0, err
+		}
+	}
+}
+
+// With returns r itself or r with extra capabilities: "" plain, "byte" io.ByteReader.
+func (r *Reader) With(caps string) io.Reader {
+	if caps == "byte" {
+		return ByteReader{r}
+	}
+	return r
+}
+
+// ByteWriter is the simulated writer also offering io.ByteWriter.
+type ByteWriter struct{ *Writer }
+
+// WriteByte implements io.ByteWriter.
+func (b ByteWriter) WriteByte(c byte) error {
+	_, err := b.Writer.Write([]byte{c})
+	return err
+}
+
+// StringWriter is the simulated writer also offering io.StringWriter.
+type StringWriter struct{ *Writer }
+
+// WriteString implements io.StringWriter.
+func (s StringWriter) WriteString(x string) (int, error) { return s.Writer.Write([]byte(x)) }
+
+// With returns w itself or w with extra capabilities: "" plain, "byte"
+// io.ByteWriter, "string" io.StringWriter.
+func (w *Writer) With(caps string) io.Writer {
+	switch caps {
+	case "byte":
+		return ByteWriter{w}
+	case "string":
+		return StringWriter{w}
+	}
+	return w
+}
+
 // WritePlan describes when a writer starts failing.
 type WritePlan struct {
 	// FailAt >= 0: the byte at offset FailAt is never accepted. The call that
